@@ -2057,8 +2057,11 @@ def c10(tier):
     num = 120 if thorough else 14
     for j, var in enumerate(variants):
         vs = var.split(",")
+        # (every other variant: insertions may dereference another tree in the same transaction - Swap)
         behs = mt_generate(rep, num, 34 if thorough else 30, SEED * 17 + j, rc="rc" in vs, ao="ao" in vs, fine=False,
-                           shapes="ShapesWide", maxids=14, maxcommits=10, maxlocks=0, nt=3, nv=2)
+                           shapes="ShapesWide", maxids=14, maxcommits=10, maxlocks=0, nt=3, nv=2, swap=(j % 2 == 1 and "ao" not in vs))
+        rep.extra["insert_and_dereference_transactions"] = rep.extra.get("insert_and_dereference_transactions", 0) + sum(
+            1 for b in behs for e in b["steps"] if e["a"] == "Commit" and e["tx"]["tree"].get("dk"))
         generic_replay(rep, "mtree-replay", behs, {"seed": SEED + j, "variant": var}, "c10_%d" % j, "mtree-replay")
     # wide sharing (ShapesFan / ScriptFan): a tree of 3 x 255 leaves, every leaf referenced again by a second tree in ONE
     # transaction (765 reference counts change in one log record; the table has 65 536 chunks of 32 entries, so some
@@ -2071,6 +2074,8 @@ def c10(tier):
     rep.extra["wide_sharing_behaviours"] = len(fan)
     for var in ["", "direct"] + (["rc"] if thorough else []):
         generic_replay(rep, "mtree-replay", fan, {"seed": SEED + 33, "variant": var}, "c10fan%s" % var[:1], "mtree-replay")
+    if rep.extra.get("insert_and_dereference_transactions", 0) < 20:
+        raise ToolError("fewer than 20 transactions that insert and dereference in the generated tree behaviours: vacuous")
     # implementation -> specification
     for j, var in enumerate(["", "rc", "direct", "ao", "big"] + (["rc,direct", "", "rc"] if thorough else [])):
         mt_record_and_validate(rep, var, 3000 if thorough else 400, SEED * 41 + j, crash=2, nt=6 if thorough else 5,
